@@ -226,6 +226,7 @@ type fsVisit struct {
 	RootReal string // symlink-resolved root path
 	Probe    map[string]fileProbe
 	Changed  bool // on-disk fingerprint (incl. mtimes) changed
+	Spell    int  // how the root was spelled when configuring the file system (fsRootSpellings)
 }
 
 type fsWorker struct {
@@ -237,6 +238,24 @@ type fsWorker struct {
 	probe      map[string]fileProbe
 	handler    *webdav.Handler
 	n          int
+	spell      int
+}
+
+// fsRootSpellings are ways to write the same served directory when configuring LocalFileSystem.
+var fsRootSpellings = []string{"clean", "trailing-slash", "trailing-slash-dot", "doubled-slash", "dot-segment"}
+
+func (w *fsWorker) served() string {
+	switch w.spell {
+	case 1:
+		return w.root + "/"
+	case 2:
+		return w.root + "/."
+	case 3:
+		return filepath.Dir(w.root) + "//" + filepath.Base(w.root)
+	case 4:
+		return filepath.Dir(w.root) + "/./" + filepath.Base(w.root)
+	}
+	return w.root
 }
 
 const rootToken = "vroot-7f3a"
@@ -266,7 +285,7 @@ func (w *fsWorker) load(t harness.Tree) {
 	harness.Materialise(w.rootReal, t)
 	w.state = t
 	_, w.stamp = harness.Snapshot(w.rootReal)
-	w.handler = &webdav.Handler{FileSystem: webdav.LocalFileSystem(w.root)}
+	w.handler = &webdav.Handler{FileSystem: webdav.LocalFileSystem(w.served())}
 	w.probe = map[string]fileProbe{}
 	for p, n := range t {
 		if n.Dir {
@@ -308,6 +327,11 @@ func exploreFS(r *engine.Run, states []harness.Tree, reqs []harness.Req, visit f
 // exploreFSx additionally runs per-state requests computed from the state and its probe
 // (e.g. conditional headers carrying the current entity tag).
 func exploreFSx(r *engine.Run, states []harness.Tree, reqs []harness.Req, extra func(t harness.Tree, probe map[string]fileProbe) []harness.Req, visit func(v *fsVisit)) {
+	exploreFSspell(r, states, reqs, extra, 0, visit)
+}
+
+// exploreFSspell is exploreFSx with the served root configured in the given spelling.
+func exploreFSspell(r *engine.Run, states []harness.Tree, reqs []harness.Req, extra func(t harness.Tree, probe map[string]fileProbe) []harness.Req, spell int, visit func(v *fsVisit)) {
 	const block = 1500
 	nb := (len(reqs) + block - 1) / block
 	if extra != nil {
@@ -325,6 +349,7 @@ func exploreFSx(r *engine.Run, states []harness.Tree, reqs []harness.Req, extra 
 			w = newFSWorker()
 		}
 		defer func() { workers <- w }()
+		w.spell = spell
 		w.load(states[si])
 		if bi == 0 {
 			s.State()
@@ -341,12 +366,12 @@ func exploreFSx(r *engine.Run, states []harness.Tree, reqs []harness.Req, extra 
 		for ri := lo; ri < hi; ri++ {
 			resp, after, changed := w.step(list[ri])
 			s.Transition()
-			idx := int64(si)<<24 | int64(ri)
+			idx := int64(spell)<<56 | int64(si)<<24 | int64(ri)
 			if extra != nil && bi == nb-1 {
 				idx |= 1 << 23
 			}
 			visit(&fsVisit{S: s, Index: idx, State: states[si], Req: list[ri], Resp: resp, After: after,
-				Root: w.root, RootReal: w.rootReal, Probe: w.probe, Changed: changed})
+				Root: w.root, RootReal: w.rootReal, Probe: w.probe, Changed: changed, Spell: spell})
 		}
 	})
 	close(workers)
@@ -358,6 +383,7 @@ func exploreFSx(r *engine.Run, states []harness.Tree, reqs []harness.Req, extra 
 type fsCase struct {
 	State harness.Tree `json:"state"`
 	Req   harness.Req  `json:"request"`
+	Spell int          `json:"root_spelling,omitempty"`
 }
 
 // fsReplay re-executes one (state, request) and returns what a visit would see.
@@ -365,10 +391,11 @@ func fsReplay(c fsCase) *fsVisit {
 	defer harness.Cleanup()
 	w := newFSWorker()
 	defer w.close()
+	w.spell = c.Spell
 	w.load(c.State)
 	s := engine.NewRun("replay", "quick").Shard()
 	resp, after, changed := w.step(c.Req)
-	return &fsVisit{S: s, State: c.State, Req: c.Req, Resp: resp, After: after, Root: w.root, RootReal: w.rootReal, Probe: w.probe, Changed: changed}
+	return &fsVisit{S: s, State: c.State, Req: c.Req, Resp: resp, After: after, Root: w.root, RootReal: w.rootReal, Probe: w.probe, Changed: changed, Spell: c.Spell}
 }
 
 func commaSet(vals []string) map[string]bool {
@@ -394,3 +421,27 @@ func sortedKeys(m map[string]bool) []string {
 }
 
 var _ = http.StatusOK
+
+// fsSpellingStates picks the states explored under the non-clean root spellings: the probe states
+// (nesting, special names) and every k-th state of the universe.
+func fsSpellingStates(states []harness.Tree, quick bool) []harness.Tree {
+	k := 3
+	if quick {
+		k = 16
+	}
+	var out []harness.Tree
+	seen := map[string]bool{}
+	for i, t := range states {
+		if i%k == 0 && !seen[t.Canon()] {
+			seen[t.Canon()] = true
+			out = append(out, t)
+		}
+	}
+	for _, t := range fsProbeStates() {
+		if !seen[t.Canon()] {
+			seen[t.Canon()] = true
+			out = append(out, t)
+		}
+	}
+	return out
+}
